@@ -46,6 +46,14 @@ def ctl_cases(pid):
             for who in (0, 1):
                 C.append(dict(rf=2, world=world(2), events=boot(2, 0, []) + [ev("addcheck", a=1), ev("addcommit", a=1), ev("verify", a=1, fs=fl((who, k))),
                                                                              ev("read", off=0, len=4096), ev("verify", a=1), ev("read", off=0, len=4096)]))
+        # the healthy replica carries a checkpoint that is not its oldest snapshot, the replacement has none and
+        # only part of the chain: the comparison must cover the whole chain (the rebuilding replica's own checkpoint
+        # decides where it starts), so the verify must fail
+        C.append(dict(rf=2, world=world(2, chains={0: [5, 4, 3], 1: [5, 4]}, cps={0: 4}),
+                      events=boot(2, 0, []) + [ev("addcheck", a=1), ev("addcommit", a=1), ev("verify", a=1, nosync=True), ev("read", off=0, len=4096),
+                                               ev("verify", a=1), ev("read", off=0, len=4096)]))
+        C.append(dict(rf=2, world=world(2, chains={0: [5, 4, 3], 1: [5, 4, 3]}, cps={0: 4, 1: 4}),
+                      events=boot(2, 0, []) + [ev("addcheck", a=1), ev("addcommit", a=1), ev("verify", a=1, nosync=True), ev("read", off=0, len=4096)]))
         # interrupted rebuild: the WO replica dies, reads keep being served by RW only
         C.append(dict(rf=2, world=world(2), events=boot(2, 0, []) + [ev("addcheck", a=1), ev("addcommit", a=1), ev("monfail", a=1), ev("read", off=0, len=4096), ev("verify", a=1)]))
     else:
